@@ -445,7 +445,7 @@ From BU Require Import Gen.AddrConsts Gen.AddrTextConsts Gen.ConstsCardmon Model
   Model.Base32 Model.CborEnc Model.AddrAdaShelley.
 From BU Require Model.AddrXmr Model.AddrAdaByron Model.EdLib.
 From BU Require Lemmas.AddrB58 Lemmas.AddrInst Lemmas.Base32 Lemmas.CborEnc
-  Lemmas.AddrAcceptB58 Lemmas.AddrAcceptText Lemmas.AddrAcceptB32 Lemmas.AddrAcceptXmr Lemmas.AddrAcceptAda.
+  Lemmas.AddrAcceptB58 Lemmas.AddrAcceptText Lemmas.AddrAcceptB32 Lemmas.AddrAcceptXmr Lemmas.AddrAcceptXmrLink Lemmas.AddrAcceptAda.
 
 Notation b58check_decode sha256 alph := (Base58.check_decode alph b58_radix b58_cklen sha256).
 Notation b58check_encode sha256 alph := (Base58.check_encode alph b58_radix b58_cklen sha256).
@@ -875,17 +875,16 @@ Section XmrStatements.
   Proof. exact (Lemmas.AddrAcceptXmr.decode_addr_accepts_iff keccak G pdec keccak_len). Qed.
 
   (* exact equality with the encoder (Base58 has no case rule): accepted <-> the string is the output of
-     XmrAddrEncoder / XmrIntegratedAddrEncoder for two valid keys.  Relative to canonicity of the block-Base58 decoder
-     of Model/XmrB58.v ([b58x_canon]; a theorem for the twin model Base58Xmr.v -- xmr_b58_accepts_iff above --, and for
-     XmrB58.v itself in the contributor link's Lemmas/LinkXmr.v, b58x_encode_decode, not yet part of this tree) *)
+     XmrAddrEncoder / XmrIntegratedAddrEncoder for two valid keys.  Unconditional: canonicity of the block-Base58
+     decoder of Model/XmrB58.v is Lemmas/LinkXmr.v b58x_encode_decode (XmrB58 = Base58Xmr extensionally, canonicity
+     transported from xmr_b58_accepts_iff above) *)
   Theorem xmr_addr_decode_accepts_iff_encoder :
     (forall x, bytes_ok (keccak x)) ->
-    (forall s b, AddrXmr.b58x_decode s = Ok b -> AddrXmr.b58x_encode b = s /\ bytes_ok b) ->
     forall s net payid out, bytes_ok net -> (match payid with Some p => bytes_ok p | None => True end) ->
     (xmr_decode_addr s net payid = Ok out <->
      exists ps pv, out = ps ++ pv /\ length ps = 32%nat /\ length pv = 32%nat /\ bytes_ok ps /\ bytes_ok pv /\
                    key_valid ps = true /\ key_valid pv = true /\ xmr_encode_key ps pv net payid = Ok s).
-  Proof. exact (Lemmas.AddrAcceptXmr.decode_addr_accepts_iff_encoder keccak G pdec keccak_len). Qed.
+  Proof. exact (Lemmas.AddrAcceptXmrLink.decode_addr_accepts_iff_encoder keccak G pdec keccak_len). Qed.
 End XmrStatements.
 Print Assumptions xmr_addr_decode_accepts_iff.
 Print Assumptions xmr_addr_decode_accepts_iff_encoder.
@@ -953,7 +952,8 @@ Print Assumptions ada_byron_accepted_partial.
 (* without that hypothesis it is FALSE, already for parsers satisfying every law the C18 round-trip theorem assumes
    of cbor2: s2 writes the CRC in a non-minimal head (well-formed CBOR per RFC 8949, accepted by cbor2 and by the
    library).  Bytes after the CBOR item are refused by a reader that demands exactly one item, as the repaired
-   library does (finding C10-BYRON-TRAILING, fixed): second clause *)
+   library does (findings C10-BYRON-TRAILING and C10-BYRON-CBOR-LAX, fixed; the latter also made attribute 1 exactly one
+   byte-string item and the CRC / type integers proper): second clause *)
 Theorem ada_byron_canonical_refuted :
   (exists s1 s2 out,
     AddrAdaByron.encode_key Lemmas.AddrAcceptAda.zero28 Lemmas.AddrAcceptAda.zero28 Lemmas.AddrAcceptAda.zero_crc [] [] None = s1 /\
